@@ -143,6 +143,12 @@ pub async fn insert_async<'a>(cache: &'a Path, key: &'a str, opts: WriteOpts) ->
         .with_context(|| format!("Failed to create or open index bucket at {bucket:?}"))?;
 
     let out = format!("\n{}\t{}", hash_entry(&stringified), stringified);
+    // tokio's `File` hands at most `max_buf_size` bytes (2 MiB by default) to
+    // the kernel per operation: a longer record would reach the bucket as
+    // several writes, and a concurrent append could land in between. Index
+    // records must be appended whole.
+    #[cfg(feature = "tokio")]
+    buck.set_max_buf_size(out.len());
     buck.write_all(out.as_bytes())
         .await
         .with_context(|| format!("Failed to write to index bucket at {bucket:?}"))?;
